@@ -20,6 +20,11 @@ import (
 
 const numBases = 6
 
+// intEdges: decimal digit runs at the boundaries of 32- and 64-bit integers (signed and unsigned),
+// one past them, 19 and 20 nines, leading zeros and signs.
+var intEdges = []string{"2147483647", "2147483648", "4294967295", "4294967296", "9223372036854775807", "9223372036854775808", "18446744073709551615", "18446744073709551616",
+	"9999999999999999999", "99999999999999999999", "00000000000000000000001", "-0", "-9223372036854775808", "-9223372036854775809"}
+
 func body(n int, c byte) []byte { return bytes.Repeat([]byte{c, c + 1, '\r', '\n'}, n) }
 
 func baseWorld(i int) *b2fx.PeerWorld {
@@ -333,6 +338,10 @@ func structuredMutants() []mutant {
 		fmt.Sprintf("FS !%d", c0-1), fmt.Sprintf("FS !%d", c0), fmt.Sprintf("FS !%d", c0+1), fmt.Sprintf("FS !%d!%d!%d", c0+1, c0+1, c0+1), "FS !999999", "FS !1000000", "FS !1000000000000",
 		"FS !99999999999999999999999", "FS !0!0!0", "FS A0a0!0", "FS +!", "FS !+", "FS ?++", "FS +?+", "FS E++", "FS eee", "FS ---", "FS ===", "FS HhL", "FS YyY", "FS +-=",
 		"FS\x00+++", "FS +++\x00", "FS  +++", "fs +++", "FX", "FS " + strings.Repeat("+", 5000), "FS !" + strings.Repeat("0", 5000), "*** remote error", ";PM:", "F> 00", "FF", "FQ"}
+	// digit runs around every machine-integer boundary (a hand-written digit loop wraps where Atoi saturates)
+	for _, e := range intEdges {
+		answers = append(answers, "FS !"+e, "FS A"+e, "FS +!"+e)
+	}
 	for i, a := range answers {
 		id := fmt.Sprintf("a%02d", i)
 		add("answer", id+"/slave", slaveOut, masterHS+a+"\rFF\rFF\r")
@@ -367,7 +376,7 @@ func structuredMutants() []mutant {
 	frame("title-q-broken", 'C', len(good), len(gp), hdr(14, "=?utf-8?q?=?=", "0")[:0]+hdr(len("=?utf-8?q?=ZZ?=")+3, "=?utf-8?q?=ZZ?=", "0")+stx(gp)+eot)
 	frame("no-nul", 'C', len(good), len(gp), "\x01\x04t0"+stx(gp)+eot)
 	frame("one-nul", 'C', len(good), len(gp), "\x01\x04t\x000"+stx(gp)+eot)
-	for _, off := range []string{"-1", "1", "7", "999999", "999999999999", "99999999999999999999999", "abc", "", " 0", "0 ", "+0", "0x0"} {
+	for _, off := range append([]string{"-1", "1", "7", "999999", "999999999999", "99999999999999999999999", "abc", "", " 0", "0 ", "+0", "0x0"}, intEdges...) {
 		frame("offset-"+off, 'C', len(good), len(gp), hdr(len(off)+3, "t", off)+stx(gp)+eot)
 	}
 	frame("stx-len0-short", 'C', len(good), len(gp), hdr(4, "t", "0")+"\x02\x00"+gp+eot)
@@ -384,7 +393,7 @@ func structuredMutants() []mutant {
 	frame("usize-zero", 'C', 0, len(gp), hdr(4, "t", "0")+stx(gp)+eot)
 	// announced sizes that do not match an otherwise completely conforming transfer (the proposal's
 	// size fields are remote-controlled numbers too: nothing may be allocated from them)
-	for _, us := range []string{"0", "1", "-1", "-2147483648", "65536", "16777216", "134217728", "2147483647", "2147483648", "4294967296", "99999999999", "9223372036854775807", "99999999999999999999"} {
+	for _, us := range append([]string{"0", "1", "-1", "-2147483648", "65536", "16777216", "134217728", "99999999999", "??", ""}, intEdges...) {
 		line := fmt.Sprintf("FC EM CARRIER %s %d 0", us, len(gp))
 		turn("announced-size", "usize="+us, block(line)+hdr(4, "t", "0")+stx(gp)+eot+"FF\r")
 		line = fmt.Sprintf("FC EM CARRIER %d %s 0", len(good), us)
@@ -500,6 +509,7 @@ func runStructured(r *runner, p params) {
 			continue
 		}
 		r.replay(m.world, m.script, m.class, m.id)
+		r.replay(m.world, m.script, m.class, m.id) // again with the other status-updater setting (replay alternates)
 	}
 	if p.Shard < len(ms) {
 		m := ms[p.Shard]
